@@ -629,3 +629,94 @@ func OverCashCharset(b []byte) bool {
 	}
 	return true
 }
+
+// ---------- constructed Base58Check bodies (round 2 of the review) ----------
+
+// ZeroDigitRunBody returns a body of n bytes that starts with `first`, such that the base58 digits lo..hi-1
+// (counted from the least significant one) of body||sha256d(body)[:4] are all zero, i.e. the Base58Check string
+// has a run of hi-lo '1' characters in its interior.  Random values practically never have such a run (58^-(hi-lo)),
+// boundary values (zeros, ones, powers of two) never: the body is solved for.  With x = P*2^32 + c (c the checksum),
+// x mod 58^hi = (P*2^32 mod 58^hi) + c, and P*2^32 = 2^g*u (mod 58^hi) with g = min(32,hi) has the solutions
+// P*2^(32-g) = u (mod 58^hi/2^g); any u < (58^lo - 2^32)/2^g gives x mod 58^hi < 58^lo.  nil when impossible.
+func ZeroDigitRunBody(r *vh.RNG, first byte, n, lo, hi int) []byte {
+	if lo < 6 || hi <= lo || n < 2 {
+		return nil
+	}
+	pow := func(b int64, e int) *big.Int { return new(big.Int).Exp(big.NewInt(b), big.NewInt(int64(e)), nil) }
+	g := hi
+	if g > 32 {
+		g = 32
+	}
+	two := func(e int) *big.Int { return new(big.Int).Lsh(big.NewInt(1), uint(e)) }
+	M := new(big.Int).Div(pow(58, hi), two(g))
+	ulim := new(big.Int).Div(new(big.Int).Sub(pow(58, lo), two(32)), two(g))
+	if ulim.Sign() <= 0 {
+		return nil
+	}
+	u := new(big.Int).Mod(new(big.Int).SetBytes(r.Bytes(40)), ulim)
+	P := new(big.Int).Set(u)
+	if g < 32 {
+		inv := new(big.Int).ModInverse(two(32-g), M)
+		if inv == nil {
+			return nil
+		}
+		P.Mul(P, inv).Mod(P, M)
+	}
+	// P = first*2^(8(n-1)) + F (mod M): F = P - first*2^(8(n-1)) + k*M with F < 2^(8(n-1))
+	top := new(big.Int).Mul(big.NewInt(int64(first)), two(8*(n-1)))
+	F := new(big.Int).Sub(P, top)
+	F.Mod(F, M)
+	room := new(big.Int).Div(new(big.Int).Sub(two(8*(n-1)), F), M) // number of admissible k
+	if two(8*(n-1)).Cmp(F) <= 0 {
+		return nil
+	}
+	if room.Sign() > 0 {
+		k := new(big.Int).Mod(new(big.Int).SetBytes(r.Bytes(40)), room)
+		F.Add(F, k.Mul(k, M))
+	}
+	body := make([]byte, n)
+	body[0] = first
+	F.FillBytes(body[1:])
+	// verify against the digit string
+	s := RefBase58(append(append([]byte(nil), body...), Sha256d(body)[:4]...))
+	if len(s) < hi+1 {
+		return nil
+	}
+	for d := lo; d < hi; d++ {
+		if s[len(s)-1-d] != '1' {
+			return nil
+		}
+	}
+	return body
+}
+
+// RuneAliases returns s with the character at position pos replaced by the UTF-8 encoding of code points whose
+// low eight bits equal that character (U+0100+c, U+0200+c, U+0700+c, U+2100+c, U+10000+c): a decoder that walks
+// the string by code point and narrows to a byte reads them as the original character.
+func RuneAliases(s string, pos int) []string {
+	c := rune(s[pos])
+	var out []string
+	for _, hi := range []rune{0x100, 0x200, 0x300, 0x700, 0x2100, 0xff00, 0x10000} {
+		out = append(out, s[:pos]+string(hi+c)+s[pos+1:])
+	}
+	return out
+}
+
+// RefBase58Decode is base58 decoding by the table semantics on bytes (independent of the implementation):
+// any byte outside the alphabet gives the empty result; leading '1' characters become zero bytes.
+func RefBase58Decode(s string) []byte {
+	x := new(big.Int)
+	k := big.NewInt(58)
+	for i := 0; i < len(s); i++ {
+		d := strings.IndexByte(B58, s[i])
+		if d < 0 {
+			return []byte{}
+		}
+		x.Mul(x, k).Add(x, big.NewInt(int64(d)))
+	}
+	nz := 0
+	for nz < len(s) && s[nz] == '1' {
+		nz++
+	}
+	return append(make([]byte, nz), x.Bytes()...)
+}
